@@ -226,6 +226,14 @@ def main():
     for cmd in ["rnd", "encode", "decode", "dtntime", "d2u"]:
         m = re.search(r'"' + cmd + r'" => \{(.*?)\} (?="[a-z0-9]+" => \{|_ =>)', mb, flags=re.S)
         txt("cli_cmd_" + cmd, m.group(1).strip() if m else None)
+    # ---- C06/C19: whole visitor bodies of the three decoders (allocation and error behaviour lives here)
+    def visitor_body(text, visitor):
+        m = re.search(r"impl<'de> Visitor<'de> for " + visitor + r"\b", text)
+        return fn_body(text[m.end():], "visit_seq") if m else None
+    txt("de_bundle_body", visitor_body(bundle, "BundleVisitor"))
+    txt("de_primary_body", visitor_body(primary, "PrimaryBlockVisitor"))
+    txt("de_canonical_body", visitor_body(canonical, "CanonicalBlockVisitor"))
+    txt("de_eid_body", visitor_body(eid, "EndpointIDVisitor"))
     # ---- emit
     lines = ["/- GENERATED by tools/extract.py from /repo/src — do not edit. -/", "namespace Bp7.Extracted", ""]
     for name, kind, v in facts:
